@@ -34,12 +34,12 @@ func init() {
 		ID: "C19",
 		Rule: "Part A: every list (length 1..2 quick, 1..3 thorough) of words over the alphabet {a,b,z,0,9}, word length <=3, first char a letter (93 words) is enumerated " +
 			"exhaustively for each of the 6 encoder/decoder pairs and Decode(Encode(list)) must equal list; plus seeded long lists (up to 8 words of up to 10 chars over [a-z0-9]). " +
-			"Part B: Go identifiers assembled from the harness's own vocabulary (66 capitalised ordinary words of length >=2, 38 initialisms, 9 plural initialisms such as IDs/URLs used only as the last word after an ordinary word): exhaustive for 1..2 items, seeded for 3..5 items; " +
+			"Part B: Go identifiers assembled from the harness's own vocabulary (71 capitalised ordinary words of length >=2, five of them ending in digits (Sha256, Md5, Base64, Port2, Ab1), 38 initialisms, 9 plural initialisms such as IDs/URLs used only as the last word after an ordinary word): exhaustive for 1..2 items, seeded for 3..5 items; " +
 			"only names whose runs of initialisms have a unique segmentation are judged; DecodeGoCamelCase(name) must equal the generating words. " +
 			"distinct_nontrivial counts distinct (scheme, list) pairs with >=2 words (Part A, distinct by construction for the exhaustive part, hashed for seeded) plus distinct judged identifiers with >=2 items (Part B).",
 		Assumptions: []string{
 			"the empty word list is excluded (it encodes to the empty string, which no scheme can decode to an identifier)",
-			"identifiers containing digit-terminated ordinary words are outside the statement's vocabulary and are not generated (UTF8 is, as it is on the initialism list)",
+			"single-letter-plus-digits words (V2, S3) are not in the vocabulary: capitalised they are all upper-case and their split from a neighbouring initialism is not fixed by the statement",
 		},
 		MinDistinct: map[string]int{"quick": 40000, "thorough": 3000000},
 		Plan: func(tier string) fw.Plan {
@@ -126,10 +126,17 @@ func c19Classify(words []string, dec []string) string {
 		for k > 0 && gen.IsInitialism(words[k-1]) {
 			k--
 		}
-		glued := strings.Join(words[k:], "")
-		if len(dec) == k+1 && dec[k] == glued {
+		// the glued token is the final word and the initialisms of the run
+		// before it, from some point j of the run on (the whole run, or the
+		// part after a digit-terminated initialism such as UTF8, after which
+		// the decoder does see a boundary)
+		for j := k; j <= n-2; j++ {
+			glued := strings.Join(words[j:], "")
+			if len(dec) != j+1 || dec[j] != glued {
+				continue
+			}
 			same := true
-			for i := 0; i < k; i++ {
+			for i := 0; i < j; i++ {
 				if dec[i] != words[i] {
 					same = false
 				}
